@@ -49,9 +49,9 @@ from ..wsgi_peer import WsgiPeer
 
 BASE_MS = 1_600_000_000_000
 DAY_MS = 86_400_000
-ADV = [(4, 0), (2, 300), (2, 999), (2, 1000), (1, 1500), (1, 2000), (1, 3_600_000)]
+ADV = [(4, 0), (2, 300), (2, 999), (2, 1000), (1, 1500), (1, 2000), (1, 3_600_000), (1, 10)]
 FRACS = [0, 250, 700, 999]
-SIZES = [24, 25, 64, 300, 5000]
+SIZES = [24, 25, 64, 300, 5000, 2, 12]
 # (relative path, URLs under Files, extra URLs under Pages)
 # (Pages serves index.html only for the root URL "/": "/sub/" is answered by a redirect - C07 territory, not claimed)
 FILES = [("docs/page.html", ["/docs/page.html"], ["/docs/page"]), ("index.html", ["/index.html"], ["/", "/index"])]
@@ -146,6 +146,23 @@ class C14(Prop):
     def gen_plan(self, t):
         app = t.choice(["Files", "Pages"])
         iface = t.weighted([(2, "wsgi"), (2, "asgi"), (1, "mixed")])
+        if t.draw(12) == 0:
+            # directed family: two versions whose (mtime, size) pairs collide under an ambiguous encoding of the
+            # validator - concatenation without separator ("X.0"+"12" == "X.01"+"2") or sum (mtime+1 s, size-1);
+            # the random history generator reaches such pairs about once in 10^6 runs only
+            kind = t.choice(["concat", "concat", "sum"])
+            s2 = t.choice([2, 3, 7, 24])
+            if kind == "concat":
+                frac, d = t.choice([(0, 10), (500, 10), (250, 1)])
+                s1 = int("1" + str(s2))
+            else:
+                frac, d = t.choice(FRACS), 1000
+                s1 = s2 + 1
+            ops = [{"op": "req", "file": 0, "adv": 0, "alias": t.draw(3), "asgi": t.draw(2), "inm": "none", "ims": False, "j": None},
+                   {"op": "rewrite_other_size", "file": 0, "adv": d, "size": s2},
+                   {"op": "req", "file": 0, "adv": t.choice([0, 0, 300]), "alias": t.draw(3), "asgi": t.draw(2), "inm": t.choice(["strong", "weak"]), "ims": False, "j": 0},
+                   {"op": "req", "file": 0, "adv": 0, "alias": t.draw(3), "asgi": t.draw(2), "inm": "none", "ims": False, "j": None}]
+            return {"app": app, "iface": iface, "nfiles": 1, "frac": frac, "sizes": [s1], "zerocopy": False, "ops": ops, "family": "validator-collision"}
         nfiles = 2 if t.draw(4) == 3 else 1
         frac = t.choice(FRACS)
         sizes = [t.choice(SIZES) for _ in range(nfiles)]
